@@ -13,7 +13,7 @@ DEFAULTS = dict(
     p_eventless=0.25, p_internal=0.2, p_guard=0.6, min_trans=2, max_trans=14,
     p_send=0.25, p_state_send=0.08, p_notify=0.3, delays=(0, 0, 0, 0.125, 1, 1, 2, 5),
     contracts=False, p_contract=0.5, timed=False, timed_plain=0.0, mode=None, priorities=(-1, 0, 0, 0, 1, 2),
-    min_states=3, root_basic_ok=0.05, allow_inner_history=False,
+    min_states=3, root_basic_ok=0.05, allow_inner_history=False, p_shared_text=0.0, p_active_call=0.0,
 )
 
 
@@ -366,6 +366,22 @@ def _gen_transitions(rnd, ch, o):
             st[n]['sends_entry'] = _sends(rnd, ch, o, 1.0)[:1]
         if rnd.random() < o['p_state_send']:
             st[n]['sends_exit'] = _sends(rnd, ch, o, 1.0)[:1]
+    # the same source text used as the guard of one transition and as the (whole) action of another one
+    if o['p_shared_text'] and rnd.random() < o['p_shared_text'] and len(trans) >= 2:
+        a, b = rnd.sample(trans, 2)
+        key = 'k%s' % b['id'][1:]
+        b['guard'] = True
+        b['gkey'] = key                 # b's guard is H(key) ...
+        a['action_text'] = key          # ... and a's action is the very same text H(key)
+        a['sends'] = []
+    # documented active() predicate called from executable code (its value is discarded)
+    if o['p_active_call']:
+        for n in order:
+            if rnd.random() < o['p_active_call']:
+                st[n]['active_call'] = rnd.choice(order)
+        for t in trans:
+            if rnd.random() < o['p_active_call']:
+                t['active_call'] = rnd.choice(order)
     rnd.shuffle(trans)
     ch['transitions'] = trans
 
